@@ -210,6 +210,12 @@ func (s *Server) ServeHTTP(w http.ResponseWriter, r *http.Request) {
 			return
 		}
 
+		// A session is driven with GET and POST (and CONNECT in the case of WebTransport) only.
+		if r.Method != "GET" && r.Method != "POST" && r.ProtoMajor != 3 {
+			writeServerError(w, ErrorBadHandshakeMethod)
+			return
+		}
+
 		t := socket.Transport()
 		n := r.URL.Query().Get("transport")
 
